@@ -94,6 +94,15 @@ def step16 (d : D16) (op : String) (got : String) : StepResult D16 :=
                     cov := if (op.splitOn " ").length == 4 then ["via-management"] else [] }
       | none => { st := d, expected := some "bad-op" }
     | _ => { st := d, expected := some "bad-op" }
+  else if op.startsWith "latereg," then
+    -- a `rib/register` of a face for itself that is handled after the face went down: in every sequential order of
+    -- {register, teardown} the tables end without a route of that face (teardown last removes it; register last is
+    -- refused, the face does not exist)
+    if isCrash got then { st := d, spec := crashSpec got }
+    else
+      { st := d, expected := some "routes-left=0", cov := ["late-register"],
+        spec := if got != "routes-left=0" then
+          [⟨"sequential-outcome", "route-to-dead-face", s!"a rib/register handled after the teardown of its own face left a route / next hop of the dead face behind: {got} (no sequential order of the two operations ends like this, and nothing ever removes it)"⟩] else [] }
   else if op.startsWith "atomic," then
     -- one RIB operation that touches n prefixes is ONE step towards lookups: an observer between two FIB writes of
     -- the same operation never sees the operation's face at some of the prefixes and not at the others
